@@ -609,7 +609,8 @@ def strip_cfg(t, chk):
                 j = skip_balanced(t, j + 1, "[", "]")
             k = j
             while k < n and t[k][1] in ("pub", "const", "unsafe"): k += 1
-            if k < n and t[k][1] == "fn":
+            if k < n and t[k][1] in ("fn", "impl", "struct", "enum", "trait", "mod", "use", "type", "static"):
+                # an item: up to the end of its body (or its semicolon)
                 b = k
                 while t[b][1] not in ("{", ";"): b += 1
                 j = skip_balanced(t, b, "{", "}") if t[b][1] == "{" else b + 1
